@@ -12,15 +12,28 @@ from __future__ import annotations
 
 import itertools
 
-from harness.c09 import Ref, coq_bop, digest, exact, rand_bop
+from harness.c09 import Boom, Ref, coq_bop, digest, exact, rand_bop
 from harness.common import Failure, Spec, coq_list
 
 LONGEST = 2147483
 
 
+_QUIET = [False]
+
+
+def _quiet_logging():
+    """the reactor logs the failure of a call function that raises; keep that off stderr"""
+    if not _QUIET[0]:
+        from twisted.logger import globalLogBeginner
+        globalLogBeginner.beginLoggingTo([lambda event: None], redirectStandardIO=False, discardBuffer=True)
+        _QUIET[0] = True
+
+
 def impl(case) -> str:
     from twisted.internet import error
     from twisted.internet.base import ReactorBase
+
+    _quiet_logging()
 
     class Reactor(ReactorBase):
         _t = 0.0
@@ -71,6 +84,9 @@ def impl(case) -> str:
     def fn(i):
         toks.append(f"(r{i}@{exact(reactor.seconds(), K)}:{exact(calls[i].getTime(), K)}")
         for b in (bodies[i] if i < len(bodies) else []):
+            if b[0] == "raise":
+                toks.append(")!")
+                raise Boom()              # caught and logged by runUntilCurrent
             do(b)
         toks.append(")")
 
@@ -156,6 +172,7 @@ def oracle(case, obs):
 
 def rand_case(rng, nops, neg=False):
     k = rng.choice([0, 1, 3, 10, 20])
+    raise_p = rng.choice([0.0, 0.0, 0.2, 0.5])
     small = rng.choice([[0, 1, 2, 3], [0, 1, 1, 2, 4, 8], [0, 5, 7, 16, 1000], [1, 2 ** 30, 3], [0, 0, 1]])
     nbodies = rng.randrange(0, 12)
     bodies = []
@@ -164,6 +181,8 @@ def rand_case(rng, nops, neg=False):
             bodies.append([])
         else:
             bodies.append([fix(rand_bop(rng, i + rng.randrange(4), small, neg)) for _ in range(rng.randrange(1, 4))])
+            if rng.random() < raise_p:
+                bodies[-1].insert(rng.randrange(len(bodies[-1]) + 1), ["raise"])
     ops, created = [], 0
     p_iter = rng.choice([0.15, 0.3, 0.5])
     for _ in range(nops):
@@ -226,6 +245,8 @@ ALPHABET = [[["later", 0]], [["later", 1]], [["later", 2]], [["adv", 1], ["run"]
             [["reset", 1, 1]], [["reset", 0, 0]], [["delay", 0, 1]], [["delay", 1, -1]], [["timeout"]]]
 EXH_BODIES = [[["later", 0], ["reset", 1, 0]], [["cancel", 2], ["delay", 0, 1]],
               [["later", 1], ["later", 1], ["reset", 3, 1]], [["snap"]]]
+EXH_BODIES_RAISE = [[["later", 0], ["raise"], ["reset", 1, 0]], [["raise"]],
+                    [["later", 1], ["later", 1], ["reset", 3, 1]], [["snap"], ["raise"]]]
 
 
 def gen(rng, tier):
@@ -239,7 +260,7 @@ def gen(rng, tier):
                 continue
             ops = [o for a in word for o in ALPHABET[a]]
             ops += [["snap"], ["adv", 1], ["run"], ["snap"], ["timeout"], ["adv", 3], ["run"], ["snap"]]
-            cases.append({"k": 1, "ops": ops, "bodies": EXH_BODIES if word[0] % 2 == 0 else []})
+            cases.append({"k": 1, "ops": ops, "bodies": [EXH_BODIES, [], EXH_BODIES_RAISE][word[0] % 3]})
     for _ in range(200 if tier == "quick" else 3000):
         cases.append(rand_case(rng, rng.randrange(5, 70)))
     for _ in range(50 if tier == "quick" else 600):       # negative reset()/delay() arguments
@@ -262,6 +283,9 @@ def corpus():
         {"k": 0, "ops": [["later", 1], ["cancel", 0], ["timeout"], ["later", 1], ["run"], ["adv", 1], ["run"]],
          "bodies": []},
         compaction_fixed(),
+        # a call function raises: logged, the iteration goes on with the other due calls
+        {"k": 0, "ops": [["later", 5], ["later", 5], ["later", 5], ["adv", 5], ["run"], ["snap"], ["run"], ["snap"]],
+         "bodies": [[["later", 0], ["raise"], ["cancel", 1]], [["raise"]]]},
     ]
 
 
@@ -315,7 +339,8 @@ def histogram(case, obs):
     runs = obs.count("(r")
     ncancel = obs.count(" C")
     return f"runs={'0' if runs == 0 else '1-3' if runs < 4 else '4-9' if runs < 10 else '10+'} " \
-           f"bodies={'y' if any(case['bodies']) else 'n'} cancels={'>50' if ncancel > 50 else '<=50'}"
+           f"bodies={'y' if any(case['bodies']) else 'n'} cancels={'>50' if ncancel > 50 else '<=50'} " \
+           f"raised={'y' if ')!' in obs else 'n'}"
 
 
 SPEC = Spec(
@@ -329,7 +354,7 @@ SPEC = Spec(
     histogram=histogram,
     rule="every word of length <= 4 (quick: length 3 sampled 30%, length 4 sampled 2%) / <= 5 (thorough, length 4 50%, length 5 1%) "
          "over an 11-letter alphabet {callLater 0/1/2, advance 1 + iteration, iteration, cancel #0, reset #1 +1, "
-         "reset #0 +0, delay #0 +1, delay #1 -1, timeout()} with and without a fixed table of call bodies, each followed "
+         "reset #0 +0, delay #0 +1, delay #1 -1, timeout()} with a fixed table of call bodies, without, and with a table whose functions raise, each followed "
          "by snapshots, two iterations and a timeout(); random histories of 5-70 operations with random body tables "
          "(scales 2^0..2^-20, tie-heavy delays, 2^30-size delays); a stream with negative reset()/delay() arguments; "
          "compaction histories: 52-74 calls on 1-29 distinct times, 49..n of them cancelled (> 50 and more than half "
@@ -338,7 +363,7 @@ SPEC = Spec(
     trusted=["hand-written model coq/C08/Model.v + coq/Lib/TimersHeap.v, TimersCall.v (tied by this correspondence run "
              "only); the heap algorithms are written with swaps where heapq moves a hole",
              "CPython's C heapq performs the same comparisons as the pure-Python heapq the model follows",
-             "call functions are scripts of timer-API operations; functions that raise, threadCallQueue, and a clock "
+             "call functions are scripts of timer-API operations that may end by raising; threadCallQueue and a clock "
              "that moves while an iteration runs are not modelled"],
     assumptions=["float arithmetic (+, -, <, <=) is exact on the generated times: integers n with |n| < 2^34 scaled by "
                  "2^-k, k <= 20 (the harness prints any inexact time with a '~' so that it could never match the model)",
